@@ -221,7 +221,10 @@ func c10Check(x *fleetExec, e engine.Event, nd *knode) {
 		tol *= 4 // values were rescaled in floating point by the unit change
 	}
 	absSum, _ := ea.Float64()
-	if math.Abs(sum-want) > tol+1e-290 && absSum < 1e300 { // sums in the subnormal range lose bits to underflow
+	if !(absSum < 1e300) {
+		m.SumOverflow = true // sticky: the running sum may be infinite from now on, whatever follows
+	}
+	if math.Abs(sum-want) > tol+1e-290 && !m.SumOverflow { // sums in the subnormal range lose bits to underflow
 		x.fail("sum", sig, "the exact sum is further from the true sum than a few ulps of the total of |value*weight|", fmt.Sprintf("%v +- %v", want, tol), fmt.Sprint(sum))
 	}
 	// quantiles: inside [min, max] and otherwise the plain sketch's answer
